@@ -11,7 +11,6 @@ from __future__ import annotations
 import ast
 import enum
 import random
-import re
 import types
 import warnings
 
@@ -22,15 +21,22 @@ LEVEL = "exploration"
 TECHNIQUE = "reference-oracle monitor: CPython evaluates the expression pyanalyze analysed"
 RULE = (
     "case = one expression over a fixed universe of 45 literal operands (ints incl. 0/negatives, bools, floats, "
-    "complex, str, bytes, tuples incl. empty/nested, None, Enum and IntEnum members, classes, modules os/math): the "
-    "FULL product operand x 13 binary operators x operand ('%' with a str/bytes left operand excluded: C17), "
-    "operand x 4 unary operators, operand x 21 subscript indices (in range / out of range / negative ints, bool, "
-    "IntEnum, slices, str, None, float), and operand.attr for every name in dir(operand) plus fixed and derived "
-    "misspellings; plus 3-operand nests: for a seed-independent selection of distinct small results of the flat "
-    "operations (quick <= 6, thorough <= 96 per result type; spelling chosen by the seed) every (inner op c), (c op inner), unary, "
-    "subscript and a dir() sample. Non-trivial = every case performs one operation; distinct = (operator | "
-    "subscript+index kind | attribute name, operand type names, CPython outcome class). Histograms give both "
-    "outcomes per operator."
+    "complex, str, bytes, tuples incl. empty/nested, None, Enum and IntEnum members, classes, modules os/math). "
+    "(1) flat, enumerated exhaustively in both tiers: operand x 13 binary operators x operand ('%' with a str/bytes "
+    "left operand excluded: C17), operand x 4 unary operators, operand x 21 subscript indices (in range / out of "
+    "range / negative ints, bool, IntEnum, slices incl. a non-index bound, str, None, float), operand.attr for every "
+    "name in dir(operand) plus 6 fixed and up to 6 derived misspellings. (2) 3-operand nests: a seed-independent "
+    "selection of distinct small results of the flat operations (quick <= 2, thorough <= 64 values per result type), "
+    "each in every spelling class (root operation kind x named/constant leaves) that produces it - the seed picks the "
+    "spelling inside the class and the order/batching - crossed with every (inner op c), (c op inner), unary "
+    "operator, subscripts and a dir() sample. (3) tuple displays with one computed-but-known member, subscripted / "
+    "concatenated / repeated. Every case performs an operation, so every case is non-trivial; distinct_nontrivial "
+    "counts distinct (operator | subscript+index kind | attribute name, operand type names, CPython outcome class). "
+    "Histogram by_operator gives both outcomes per operator (MatMult can only raise in this universe)."
+)
+LEVEL_TEXT = (
+    "exploration: the property held / failed on the executions listed; the 1- and 2-operand space over the stated "
+    "universe is covered completely, deeper expressions by a structured selection"
 )
 ASSUMPTIONS = [
     "CPython 3.12 in /venv is the oracle; the expression is evaluated with eval() in the analysed module's namespace",
@@ -48,11 +54,14 @@ ASSUMPTIONS = [
     "either side evaluates them (counted as skipped_huge)",
 ]
 FLOORS = {
-    "quick": {"distinct_nontrivial": 2500, "evaluations": 15000, "binop_cases": 12000, "unary_cases": 90,
-              "subscript_cases": 450, "attr_cases": 1800, "cpython_raised_claimed": 5000, "cpython_ok": 3000,
-              "literal_compared": 2500, "diagnosed_lines": 5000},
-    "thorough": {"distinct_nontrivial": 3000, "evaluations": 150000, "nest_cases": 130000,
-                 "cpython_raised_claimed": 50000, "cpython_ok": 30000, "literal_compared": 20000},
+    "quick": {"distinct_nontrivial": 1900, "evaluations": 37000, "binop_cases": 13000, "unary_cases": 90,
+              "subscript_cases": 470, "attr_cases": 1700, "nest_cases": 21000, "display_cases": 850,
+              "cpython_raised_claimed": 29000, "cpython_ok": 7400, "literal_compared": 27000,
+              "diagnosed_lines": 29000},
+    "thorough": {"distinct_nontrivial": 1900, "evaluations": 270000, "binop_cases": 13000, "unary_cases": 90,
+                 "subscript_cases": 470, "attr_cases": 1700, "nest_cases": 245000, "display_cases": 9500,
+                 "cpython_raised_claimed": 200000, "cpython_ok": 57000, "literal_compared": 295000,
+                 "diagnosed_lines": 200000},
 }
 NSHARDS = 16
 WATCHDOG_S = {"quick": 600, "thorough": 3600}
@@ -142,9 +151,6 @@ def par(src: str) -> str:
     return f"({src})"
 
 
-_INTLIKE = (int,)
-
-
 def too_big(op: str, left, right) -> bool:
     """Would `left op right` produce an enormous object?  Decided from the operands alone."""
     try:
@@ -158,8 +164,6 @@ def too_big(op: str, left, right) -> bool:
                     return len(a) * int(b) > 5000
             if isinstance(left, int) and isinstance(right, int):
                 return int(left).bit_length() + int(right).bit_length() > 10000
-        if op == "Pow" and isinstance(left, int) and isinstance(right, float):
-            return False
     except Exception:  # noqa: BLE001
         return True
     return False
@@ -356,6 +360,21 @@ class Node:
         )
 
 
+def _plain_literal(n: ast.AST) -> bool:
+    """Spelled as a literal of the universe (no operation inside): statically known by construction."""
+    if isinstance(n, ast.UnaryOp) and isinstance(n.op, ast.USub):
+        n = n.operand
+        return isinstance(n, ast.Constant)
+    if isinstance(n, ast.BinOp):  # 1+2j
+        return isinstance(n.left, ast.Constant) and isinstance(n.right, ast.Constant) and isinstance(
+            n.right.value, complex)
+    if isinstance(n, ast.Tuple):
+        return all(_plain_literal(e) for e in n.elts)
+    if isinstance(n, ast.Attribute):
+        return _is_enum_member_ref(n)
+    return isinstance(n, (ast.Constant, ast.Name))
+
+
 def _is_int_literal(n: ast.AST) -> bool:
     if isinstance(n, ast.UnaryOp) and isinstance(n.op, (ast.USub, ast.UAdd)):
         n = n.operand
@@ -388,10 +407,19 @@ def mechanism(shape: str, direction: str, extra: str = "") -> str:
 _SEQ = (str, bytes, tuple)
 
 
+def _is_annotated_literal(inferred) -> bool:
+    from pyanalyze.value import AnnotatedValue
+
+    return isinstance(inferred, AnnotatedValue) and literal_of(inferred) is not None
+
+
 def missed_mechanism(n: "Node", exc: BaseException, line_codes: set) -> str:
     """Mechanism key of a missed diagnostic.  Named classes first (operand *categories* instead of type names where
     one cause spans several types); anything else falls through to (shape, exception type)."""
     crashed = "|internal_error" if "internal_error" in line_codes else ""
+    if any(_is_annotated_literal(getattr(c.node, "inferred_value", None)) for c in n.children):
+        # the operand is known to pyanalyze, but as Annotated[Literal[..], <constraint>] rather than a bare literal
+        return mechanism(f"{n.kind}|operand inferred as Annotated[Literal]", "missed", norm_exc(exc)) + crashed
     if n.kind == "binop" and n.op == "Mult":
         a, b = n.children[0].val, n.children[1].val
         for x, y in ((a, b), (b, a)):
@@ -481,10 +509,9 @@ def judge(ctx, src: str, family: str, top: ast.AST, line_diags, ns: dict) -> Non
         if claimed:
             ctx.count("cpython_raised_claimed")
             operands_known = True
-            if family == "nest":
+            if family in ("nest", "display"):
                 operands_known = all(
-                    (c.kind == "leaf" and not isinstance(c.node, ast.BinOp))
-                    or literal_of(getattr(c.node, "inferred_value", None)) is not None
+                    _plain_literal(c.node) or literal_of(getattr(c.node, "inferred_value", None)) is not None
                     for c in failing.children
                 )
             if not ds:
@@ -508,12 +535,9 @@ def judge(ctx, src: str, family: str, top: ast.AST, line_diags, ns: dict) -> Non
         ctx.count("cpython_ok")
         if ds:
             # attribute the report to the operation node at the diagnostic's column when possible
+            # (outermost node starting at that column wins: ops is post-order, so later = outer)
             d0 = ds[0]
             subj = root
-            for n in ops:
-                if getattr(n.node, "col_offset", None) == d0.col and n is not root:
-                    subj = n
-            # (outermost node starting at that column wins: ops is post-order, so later = outer)
             for n in ops:
                 if getattr(n.node, "col_offset", None) == d0.col:
                     subj = n
@@ -522,7 +546,8 @@ def judge(ctx, src: str, family: str, top: ast.AST, line_diags, ns: dict) -> Non
                 f"{src}: CPython gives {safe_repr(root.val)}; pyanalyze reports {d0.short()[:300]}",
                 wit,
             )
-    ctx.histo("by_operator", f"{opname}:{'raise' if outcome not in ('ok',) and not outcome.startswith('oos') else outcome.split(':')[0]}:{'diag' if ds else 'clean'}")
+    oclass = "ok" if outcome == "ok" else ("out-of-scope" if outcome.startswith("oos:") else "raise")
+    ctx.histo("by_operator", f"{opname}:{oclass}:{'diag' if ds else 'clean'}")
     ctx.nontrivial((shape if subject.kind != "attr" else (shape, subject.op), outcome))
 
     # ---- clause 2: an inferred literal equals the evaluated result in value and type
@@ -654,12 +679,26 @@ def canon_key(v):
         return (1, 0, repr(v))
 
 
-PER_TYPE = {"quick": 6, "thorough": 96}
+PER_TYPE = {"quick": 2, "thorough": 64}
+
+
+def spelling_class(src: str) -> str:
+    """Coarse class of an inner spelling: pyanalyze's path depends on the root operation kind and on whether a leaf is
+    a Name/Attribute (those carry a varname, hence constraints / Annotated wrappers) or a plain constant."""
+    node = ast.parse(src, mode="eval").body
+    if isinstance(node, ast.BinOp):
+        root = "binop"
+    elif isinstance(node, ast.UnaryOp):
+        root = "not" if isinstance(node.op, ast.Not) else "unary"
+    else:
+        root = type(node).__name__.lower()
+    named = any(isinstance(n, (ast.Name, ast.Attribute)) for n in ast.walk(node))
+    return f"{root}/{'named' if named else 'const'}"
 
 
 def inner_pool(ns: dict, seed: int, per_type: int) -> list:
-    """Seed-independent selection of distinct small results of flat operations; the seed only picks which
-    spelling produces each value."""
+    """Seed-independent selection of distinct small results of flat operations, each in every spelling class that
+    produces it; the seed only picks which spelling of that class is used."""
     by_val: dict = {}
     for family, src in flat_cases(ns):
         if family not in ("binop", "unary", "subscript"):
@@ -668,10 +707,10 @@ def inner_pool(ns: dict, seed: int, per_type: int) -> list:
         if not ok or not value_like(v) or isinstance(v, (type, types.ModuleType)) or not small_enough(v):
             continue
         k = (tname(v), repr(v))
-        by_val.setdefault(k, (v, []))[1].append(src)
+        by_val.setdefault(k, (v, {}))[1].setdefault(spelling_class(src), []).append(src)
     by_type: dict = {}
-    for (t, _), (v, srcs) in by_val.items():
-        by_type.setdefault(t, []).append((v, srcs))
+    for (t, _), (v, classes) in by_val.items():
+        by_type.setdefault(t, []).append((v, classes))
     out = []
     for t in sorted(by_type):
         items = sorted(by_type[t], key=lambda it: canon_key(it[0]))
@@ -682,9 +721,10 @@ def inner_pool(ns: dict, seed: int, per_type: int) -> list:
             step = len(rest) / (per_type - len(head))
             head += [rest[int(j * step)] for j in range(per_type - len(head))]
             items = head
-        for v, srcs in items:
-            rng = random.Random(f"C19/{seed}/{t}/{v!r}")
-            out.append((v, rng.choice(sorted(srcs))))
+        for v, classes in items:
+            for cls in sorted(classes):
+                rng = random.Random(f"C19/{seed}/{t}/{v!r}/{cls}")
+                out.append((v, rng.choice(sorted(classes[cls]))))
     return out
 
 
@@ -713,6 +753,26 @@ def nest_cases(ns: dict, seed: int, per_type: int):
             yield "nest", f"{par(inner)}.{name}"
 
 
+DISPLAY_INDICES = ["0", "1", "2", "3", "-1", "-2", "-3", "-4", "True", ":", "1:", ":-1", "::-1", "'a'", "None"]
+
+
+def display_cases(ns: dict, seed: int, per_type: int):
+    """Tuple displays with one computed-but-known member: the subscript / concatenation implementations see a
+    SequenceValue whose members pyanalyze inferred itself (not a ready-made KnownValue tuple)."""
+    for v, inner in inner_pool(ns, seed, per_type):
+        for disp in (f"({par(inner)}, 2, 'x')", f"(1, {par(inner)})"):
+            for idx in DISPLAY_INDICES:
+                yield "display", f"{disp}[{idx}]"
+            yield "display", f"{disp} + (1,)"
+            yield "display", f"(0,) + {disp}"
+            yield "display", f"{disp} * (2)"
+            yield "display", f"{disp} * ('a')"
+            yield "display", f"{disp} - (1,)"
+            yield "display", f"-{disp}"
+            yield "display", f"{disp}.count"
+            yield "display", f"{disp}.ptah"
+
+
 def shard(ctx) -> None:
     ns = prelude_ns()
     mine: list = []
@@ -731,6 +791,10 @@ def shard(ctx) -> None:
             if ctx.mine(idx):
                 ctx.count("skipped_huge")
             continue
+        if ctx.mine(idx):
+            mine.append((family, src))
+    for family, src in display_cases(ns, ctx.seed, PER_TYPE[ctx.tier]):
+        idx += 1
         if ctx.mine(idx):
             mine.append((family, src))
     # the seed decides order and batching (and so the history the shared Checker sees)
